@@ -26,6 +26,28 @@ ORDER = {
 }
 
 
+# checks tried first for a file (then the directory order); checks that cannot reach the file are skipped:
+# geometry does not import geo or the root package, geo imports nothing of the repository
+FIRST = {
+    "geometry/raycast.go": ["C19", "C01"], "geometry/segment.go": ["C19", "C02"], "geometry/series.go": ["C18", "C04", "C12"],
+    "geometry/rtree.go": ["C04", "C01"], "geometry/qtree.go": ["C04", "C01"], "geometry/ring.go": ["C01", "C02", "C03"],
+    "geometry/poly.go": ["C01", "C02", "C03"], "geometry/line.go": ["C01", "C02", "C03"], "geometry/rect.go": ["C01", "C02", "C03", "C11"],
+    "geometry/point.go": ["C02", "C03"], "geometry/geometry.go": ["C04", "C08"],
+    "circle.go": ["C13", "C09", "C17"], "collection.go": ["C10", "C09"], "object.go": ["C07", "C06", "C05"], "feature.go": ["C07", "C06", "C09"],
+    "spatial.go": ["C09", "C10"], "rect.go": ["C09", "C08", "C11"], "simplepoint.go": ["C09", "C08", "C11"],
+}
+SKIP = {"geometry": {"C14", "C15"}, "geo": {"C01", "C02", "C03", "C04", "C07", "C12", "C18", "C19"}, "": {"C04", "C18", "C19", "C14", "C15"}}
+
+
+def order_for(file):
+    d = file.split("/")[0] if "/" in file else ""
+    out = []
+    for p in FIRST.get(file, []) + ORDER.get(d, ORDER[""]):
+        if p not in out and p not in SKIP.get(d, set()):
+            out.append(p)
+    return out
+
+
 def sh(cmd, cwd=None, timeout=3600, env=None):
     try:
         p = subprocess.run(cmd, cwd=cwd, env=env or ENV, shell=isinstance(cmd, str), stdout=subprocess.PIPE, stderr=subprocess.STDOUT, text=True, timeout=timeout)
@@ -129,8 +151,7 @@ def do_score(workers, only, redo_missed, seed):
             rec = {"id": m["id"], "file": m["file"], "line": m["line"], "old": m["old"], "new": m["new"], "kind": m["kind"], "src": m["src"],
                    "caught_by": None, "first": "", "inconclusive": [], "tried": [], "seed": seed}
             try:
-                d = m["file"].split("/")[0] if "/" in m["file"] else ""
-                for p in ORDER.get(d, ORDER[""]):
+                for p in order_for(m["file"]):
                     code, out = sh(["./check", p, "--tier", "quick"], cwd=ver, timeout=1500, env=env)
                     rec["tried"].append(p)
                     viol = [l for l in out.splitlines() if l.startswith("VIOLATION")]
